@@ -70,7 +70,7 @@ Definition rsample (o : oracle) (sw : list (Z * Z)) (n k : Z) : result (list Z) 
   if k <? 0 then Panic PNeg                                      (* make([]int, k) *)
   else pbind (sample_loop o (fun x => x) (S (Z.to_nat n)) n (new_sampler k) (zeros k)) (fun out =>
        if n <? k then
-         if n <? 0 then Panic PIndex                            (* out[:n] with n < 0 *)
+         if n <? 0 then shuffle sw (zfirstn 0 out)              (* [0, n) is empty: n is raised to 0 (fix 2ff431c) *)
          else shuffle sw (zfirstn n out)
        else shuffle sw out).
 
